@@ -3,7 +3,6 @@
 package main
 
 import (
-	"strconv"
 	"crypto/aes"
 	"crypto/cipher"
 	"crypto/hmac"
@@ -12,6 +11,7 @@ import (
 	"fmt"
 	"net/http"
 	"net/url"
+	"strconv"
 	"strings"
 	"testing"
 	"time"
@@ -475,7 +475,6 @@ func vCookiesPairs(cs []*http.Cookie) vsx {
 	}
 	return vL(items...)
 }
-
 
 // vCsrfRaw decrypts a CSRF cookie value with the standard library: raw OIDC nonce, raw state
 // nonce and code verifier.
